@@ -1,3 +1,168 @@
+/-
+C04 — set() reports one coherent outcome: return, value, u and signal agree.
+Model A: Flatland/Scalar.lean.  Spec B: Flatland/Spec/C04.lean.
+-/
 import Flatland.Scalar
+import Flatland.Spec.C04
+import Flatland.Generated.C04Tables
+import Proofs.Lemmas.C04Reset
 namespace Flatland.C04.Proofs
+open Flatland.Scalar Flatland.Scalar.Spec
+
+/-- the generated tables of the running interpreter satisfy what the proofs need -/
+theorem pyTables_ok : Flatland.Generated.C04.pyTables.OK := by decide
+
+/-! ### one coherent outcome (all kinds, including the opaque Float / Decimal) -/
+
+/-- **set_coherent** — whenever `set(x)` completes, flag, value, u and the signal agree:
+    `set_flag`, `set_success`, `set_failure` and the scalar half of `signals` in one statement. -/
+theorem set_coherent (E : Env) (k : Kind) (x : Native) (r : SetResult)
+    (h : setScalar E k x = .ok r) : Outcome E k x r := by
+  unfold setScalar at h
+  cases ha : adapt E k x with
+  | error e => simp [ha] at h
+  | ok ov =>
+    cases ov with
+    | some v =>
+      simp only [ha] at h
+      cases hu : uOfValue E k v with
+      | error e => simp [hu] at h
+      | ok u =>
+        simp only [hu, Except.ok.injEq] at h
+        subst h
+        exact ⟨⟨fun _ => ⟨v, ha⟩, fun _ => rfl⟩, fun _ => ⟨v, ha, rfl, hu⟩, by simp, rfl, rfl⟩
+    | none =>
+      simp only [ha] at h
+      cases hu : uOfFailed E.T x with
+      | error e => simp [hu] at h
+      | ok u =>
+        simp only [hu, Except.ok.injEq] at h
+        subst h
+        exact ⟨⟨by simp, fun ⟨v, hv⟩ => by rw [ha] at hv; simp at hv⟩, by simp, fun _ => ⟨rfl, hu⟩, rfl, rfl⟩
+
+theorem set_flag (E : Env) (k : Kind) (x : Native) (r : SetResult) (h : setScalar E k x = .ok r) :
+    r.flag = true ↔ ∃ v, adapt E k x = .ok (some v) := (set_coherent E k x r h).flag_iff_adapted
+
+theorem set_success (E : Env) (k : Kind) (x : Native) (r : SetResult) (h : setScalar E k x = .ok r)
+    (hf : r.flag = true) :
+    ∃ v, adapt E k x = .ok (some v) ∧ r.st.value = v ∧ uOfValue E k v = .ok r.st.u :=
+  (set_coherent E k x r h).success hf
+
+theorem set_failure (E : Env) (k : Kind) (x : Native) (r : SetResult) (h : setScalar E k x = .ok r)
+    (hf : r.flag = false) : r.st.value = .none ∧ uOfFailed E.T x = .ok r.st.u :=
+  (set_coherent E k x r h).failure hf
+
+theorem set_signals (E : Env) (k : Kind) (x : Native) (r : SetResult) (h : setScalar E k x = .ok r) :
+    r.signals = [r.flag] := (set_coherent E k x r h).signal_once
+
+set_option exponentiation.threshold 5000 in
+example : setScalar ⟨Flatland.Generated.C04.pyTables, fun _ _ => some none⟩ (.integer true 0) (.str " 12 ".toList)
+    = .ok ⟨⟨.str " 12 ".toList, .int 12, "12".toList⟩, true, [true]⟩ := by
+  simp [setScalar, adapt, uOfValue, serialize, strip, lstrip, rstrip, isWs, Flatland.Generated.C04.pyTables,
+    pyIntOfStr, splitSign, parseDigitBody, digitsAfter, digitVal, checkSigned, pyFmtInt, intFits, fmtInt,
+    natDigits, digitsVal, digitChar]
+
+/-! ### set() does not raise -/
+
+/-- an environment whose opaque conversions always fail (enough for kinds without float/Decimal) -/
+def plainEnv : Env := ⟨Flatland.Generated.C04.pyTables, fun _ _ => some none⟩
+
+/-- **set_total** (partial: `NoHuge`, see KF-C04-a) — for every kind and every constructible input
+    none of whose ints exceeds CPython's int→str digit limit, `set` completes. -/
+theorem set_total_partial (E : Env) (hT : E.T.OK) (hE : EnvTotal E) (k : Kind) (x : Native)
+    (hx : NoHuge E.T x = true) (hwf : Native.WF x = true) : ∃ r, setScalar E k x = .ok r :=
+  set_total E hT hE k x hx hwf
+
+/-- text input never raises, whatever the kind -/
+theorem set_total_text (E : Env) (hT : E.T.OK) (hE : EnvTotal E) (k : Kind) (s : Str) :
+    ∃ r, setScalar E k (.str s) = .ok r :=
+  set_total E hT hE k (.str s) rfl rfl
+
+/-- the full first clause of the property: set() never raises -/
+def C04_Full_total : Prop :=
+  ∀ (k : Kind) (x : Native), Native.WF x = true → ∃ r, setScalar plainEnv k x = .ok r
+
+set_option exponentiation.threshold 5000 in
+/-- KF-C04-a: `Integer().set(10**4300)` raises ValueError inside serialize -/
+theorem C04_total_fails : ¬ C04_Full_total := by
+  intro h
+  obtain ⟨r, hr⟩ := h (.integer true 0) (.int (10 ^ 4300)) rfl
+  have : setScalar plainEnv (.integer true 0) (.int (10 ^ 4300)) = .error .valueError := by
+    simp [setScalar, adapt, checkSigned, uOfValue, serialize, pyFmtInt, intFits, plainEnv,
+      Flatland.Generated.C04.pyTables]
+  rw [this] at hr
+  cases hr
+
+set_option exponentiation.threshold 5000 in
+example : NoHuge Flatland.Generated.C04.pyTables (.int 12345) = true := by
+  simp [NoHuge, intFits, Flatland.Generated.C04.pyTables]
+
+/-! ### re-setting the text -/
+
+/-- **reset_text** (partial: `Coherent`, see KF-C04-c) — after a successful `set`, setting `.u`
+    again completes and reproduces the same `.u`. -/
+theorem reset_text_partial (E : Env) (hT : E.T.OK) (k : Kind) (x : Native) (r : SetResult)
+    (hm : Modelled k = true) (hc : Coherent k = true) (hw : WidthOK E.T k = true)
+    (hx : NoHuge E.T x = true) (hwf : Native.WF x = true)
+    (h : setScalar E k x = .ok r) (hf : r.flag = true) :
+    ∃ r', setScalar E k (.str r.st.u) = .ok r' ∧ r'.st.u = r.st.u := by
+  obtain ⟨v, ha, _, hu⟩ := set_success E k x r h hf
+  have hv := adapt_value E hT k x v hx hwf ha
+  rcases reset_u_value E hT k hm hc hw v r.st.u hv hu with h1 | ⟨v', h1, h2⟩
+  · exact ⟨⟨⟨.str r.st.u, .none, r.st.u⟩, false, [false]⟩, by simp [setScalar, h1, uOfFailed], rfl⟩
+  · exact ⟨⟨⟨.str r.st.u, v', r.st.u⟩, true, [true]⟩, by simp [setScalar, h1, h2], rfl⟩
+
+/-- **reset_value** (partial: `Coherent` and `ExactInput`, see KF-C04-b/c) — for the exactly
+    serialising kinds a value other than None is reproduced, with a True flag, by setting `.u`. -/
+theorem reset_value_partial (E : Env) (hT : E.T.OK) (k : Kind) (x : Native) (r : SetResult)
+    (hm : Modelled k = true) (hc : Coherent k = true) (hw : WidthOK E.T k = true)
+    (hx : NoHuge E.T x = true) (hwf : Native.WF x = true) (hex : ExactInput k x = true)
+    (h : setScalar E k x = .ok r) (hf : r.flag = true) (hne : r.st.value ≠ .none) :
+    ∃ r', setScalar E k (.str r.st.u) = .ok r' ∧ r'.st.u = r.st.u ∧ r'.st.value = r.st.value ∧
+      r'.flag = true := by
+  obtain ⟨v, ha, hval, hu⟩ := set_success E k x r h hf
+  have hv := adapt_value E hT k x v hx hwf ha
+  have h1 := reset_value_value E hT k hm hc hw v r.st.u hv (adapt_exact E k x v hex ha)
+    (hval ▸ hne) hu
+  exact ⟨⟨⟨.str r.st.u, v, r.st.u⟩, true, [true]⟩, by simp [setScalar, h1, hu], rfl, hval.symm, rfl⟩
+
+/-- the full re-set clause: no hypothesis on the Boolean configuration -/
+def C04_Full_reset_u : Prop :=
+  ∀ (k : Kind) (x : Native) (r : SetResult), Modelled k = true → Native.WF x = true →
+    setScalar plainEnv k x = .ok r → r.flag = true →
+    ∃ r', setScalar plainEnv k (.str r.st.u) = .ok r' ∧ r'.st.u = r.st.u
+
+/-- KF-C04-c: `Boolean(true_synonyms=('',))`: False has text '' which adapts to True / '1' -/
+theorem C04_reset_u_fails : ¬ C04_Full_reset_u := by
+  intro h
+  obtain ⟨r', h1, h2⟩ := h (.boolean ['1'] [] [[]] []) (.bool false)
+    ⟨⟨.bool false, .bool false, []⟩, true, [true]⟩ rfl rfl
+    (by simp [setScalar, adapt, pyTruthy, uOfValue, serialize]) rfl
+  simp [setScalar, adapt, uOfValue, serialize, pyTruthy] at h1
+  subst h1
+  simp at h2
+
+/-- the full value clause: no hypothesis on the native input -/
+def C04_Full_reset_value : Prop :=
+  ∀ (k : Kind) (x : Native) (r : SetResult), Modelled k = true → Coherent k = true → Native.WF x = true →
+    setScalar plainEnv k x = .ok r → r.flag = true → r.st.value ≠ .none →
+    ∃ r', setScalar plainEnv k (.str r.st.u) = .ok r' ∧ r'.st.value = r.st.value
+
+/-- KF-C04-b: `Time().set(time(1,2,3,5))` has text '01:02:03', which adapts to time(1,2,3) -/
+theorem C04_reset_value_fails : ¬ C04_Full_reset_value := by
+  intro h
+  have hs : setScalar plainEnv (.time true) (.time 1 2 3 5) =
+      .ok ⟨⟨.time 1 2 3 5, .time 1 2 3 5, timeText 1 2 3⟩, true, [true]⟩ := by
+    simp [setScalar, adapt, uOfValue, serialize]
+  obtain ⟨r', h1, h2⟩ := h (.time true) (.time 1 2 3 5) _ rfl rfl (by decide) hs rfl (by simp)
+  have hv := reset_value_value plainEnv pyTables_ok (.time true) rfl rfl rfl (.time 1 2 3 0) (timeText 1 2 3)
+    (Or.inr ⟨1, 2, 3, 0, rfl, by decide⟩) rfl (by simp) (by simp [uOfValue, serialize])
+  simp only at h1 h2
+  simp [setScalar, hv, uOfValue, serialize] at h1
+  subst h1
+  simp at h2
+
+example : Coherent Flatland.Generated.C04.booleanDefault = true := by decide
+example : ExactInput (.date true) (.date 2020 1 2) = true := rfl
+
 end Flatland.C04.Proofs
